@@ -146,6 +146,8 @@ def render(case: dict, v: dict) -> World:
         w.keep.append(sym)
         bi.symbolic_expressions[o] = gtirb.SymAddrConst(0, sym)
     # offset-keyed annotations
+    if v["tab"] == "custom":
+        w.custom["x:com"] = OffsetMapping()
     for it in case["items"]:
         key_node = bi if it["kk"] == "bi" else w.blocks[it["b"] - 1]
         key = gtirb.Offset(key_node, it["d"])
@@ -252,6 +254,7 @@ def run_sj(case: dict, v: dict) -> dict:
     mid = pre
     mid2 = None
     grown = 0
+    late = 0
     try:
         res = split_byte_interval(bi, alignment=w.al_arg, tables=tables)
         for iv in res:
@@ -265,6 +268,18 @@ def run_sj(case: dict, v: dict) -> dict:
             grown = v["grow"]
             first.contents = bytes(first.contents) + bytes(0x60 + i for i in range(grown))
             first.size += grown
+        if v.get("late", 0) and len(res) >= 2:
+            # what a rewrite may do: annotate an interval that is not the
+            # destination of the join
+            late = 1
+            key = gtirb.Offset(res[-1], 0)
+            if v["tab"] == "custom":
+                w.custom["x:com"][key] = "late"
+            elif w.module is not None:
+                _auxdata.comments.get_or_insert(w.module)[key] = "late"
+            else:
+                late = 0
+        if grown or late:
             mid2 = project(w, res)
         out = join_byte_intervals(
             list(res), nop=nop, alignment=w.al_arg, tables=tables,
@@ -281,7 +296,7 @@ def run_sj(case: dict, v: dict) -> dict:
     post = project(w, res, canonical=True)
     return {
         "v": v, "pre": pre, "mid": mid, "post": post, "exc": exc, "stage": stage,
-        "ret": ret, "realized": w.realized, "grown": grown,
+        "ret": ret, "realized": w.realized, "grown": grown, "late": late,
         **({"mid2": mid2} if mid2 is not None else {}),
         "nopb": list(nop or b""), "encb": list(enc or b""),
     }
